@@ -20,6 +20,7 @@ from collections import OrderedDict
 from copy import deepcopy
 from functools import partial
 from itertools import chain
+from os import path
 from textwrap import indent
 
 from black import Mode, format_str
@@ -568,6 +569,12 @@ def file(node, filename, mode="a", skip_black=False):
                 string_normalization=False,
             ),
         )
+    if "a" in mode and path.isfile(filename):
+        with open(filename, "rt") as f:
+            existing = f.read()
+        if existing and not existing.endswith("\n"):
+            # Start the appended definition on a line of its own
+            src = "\n{}".format(src)
     with open(filename, mode) as f:
         f.write(src)
 
